@@ -1,7 +1,153 @@
 package main
 
+import (
+	"bytes"
+	"context"
+	"encoding/json"
+	"fmt"
+	"os"
+	"os/exec"
+	"path/filepath"
+	"regexp"
+	"strconv"
+	"strings"
+	"text/template"
+	"time"
+)
+
 // tryReplay turns a solver model into a concrete run of the real code where a replay
-// driver exists for the obligation's function. Returns the verdict and details.
+// driver (a Go test template under /verif/replay) exists for the obligation's function.
+// The driver is injected with `go test -overlay`, so nothing is written under the repository.
 func tryReplay(d *Driver, repo string, r *oblResult, info map[string]interface{}) (string, map[string]interface{}) {
-	return "no-driver", nil
+	if r.O.Fn == "" || r.R.Status == "missing" || r.R.Status == "undecided" {
+		return "no-driver", nil
+	}
+	verif := filepath.Dir(d.specDir)
+	tmplPath := filepath.Join(verif, "replay", sanitize(r.O.Fn)+".go.tmpl")
+	tb, err := os.ReadFile(tmplPath)
+	if err != nil {
+		return "no-driver", nil
+	}
+	inputs := map[string]string{}
+	if r.R.Status == "sat" {
+		inputs = parseGetValue(r.R.Model, r.O.Syms)
+	}
+	data := map[string]interface{}{}
+	for k, v := range inputs {
+		data[k] = smtValueToGo(v)
+	}
+	label := r.O.Name
+	if i := strings.LastIndex(label, ":"); i >= 0 {
+		label = label[i+1:]
+	}
+	data["Label"] = label
+	data["Obligation"] = r.O.Name
+	data["HasModel"] = r.R.Status == "sat"
+	funcs := template.FuncMap{
+		"str": func(v interface{}) string {
+			if v == nil {
+				return `""`
+			}
+			return fmt.Sprint(v)
+		},
+		"int": func(v interface{}) string {
+			if v == nil {
+				return "0"
+			}
+			return fmt.Sprint(v)
+		},
+	}
+	t, err := template.New("replay").Funcs(funcs).Option("missingkey=zero").Parse(string(tb))
+	if err != nil {
+		return "driver-error", map[string]interface{}{"error": err.Error()}
+	}
+	var src bytes.Buffer
+	if err := t.Execute(&src, data); err != nil {
+		return "driver-error", map[string]interface{}{"error": err.Error()}
+	}
+	tmp, _ := os.MkdirTemp("", "govc-replay")
+	defer os.RemoveAll(tmp)
+	testFile := filepath.Join(tmp, "zz_govc_replay_test.go")
+	os.WriteFile(testFile, src.Bytes(), 0644)
+	ov := map[string]interface{}{"Replace": map[string]string{filepath.Join(repo, "zz_govc_replay_test.go"): testFile}}
+	ob, _ := json.Marshal(ov)
+	ovFile := filepath.Join(tmp, "overlay.json")
+	os.WriteFile(ovFile, ob, 0644)
+	ctx, cancel := context.WithTimeout(context.Background(), 120*time.Second)
+	defer cancel()
+	cmd := exec.CommandContext(ctx, "go", "test", "-overlay", ovFile, "-vet=off", "-timeout", "60s", "-count=1", "-v", "-run", "TestGovcReplay", ".")
+	cmd.Dir = repo
+	cmd.Env = append(os.Environ(), "GOFLAGS=-mod=mod", "GOPROXY=off", "GOSUMDB=off", "GOTOOLCHAIN=local")
+	var out bytes.Buffer
+	cmd.Stdout = &out
+	cmd.Stderr = &out
+	cmd.Run()
+	o := out.String()
+	verdict := "not-reproduced"
+	if strings.Contains(o, "REPLAY: reproduced") {
+		verdict = "reproduced"
+	} else if !strings.Contains(o, "REPLAY: not-reproduced") {
+		verdict = "driver-inconclusive"
+	}
+	lines := []string{}
+	for _, l := range strings.Split(o, "\n") {
+		if strings.Contains(l, "REPLAY") || strings.Contains(l, "panic") || strings.Contains(l, "FAIL") {
+			lines = append(lines, strings.TrimSpace(l))
+		}
+	}
+	if len(lines) > 20 {
+		lines = lines[:20]
+	}
+	return verdict, map[string]interface{}{
+		"driver":      tmplPath,
+		"inputs":      inputs,
+		"test_source": src.String(),
+		"output":      lines,
+		"how_to_run":  "write test_source to a file and run: cd " + repo + " && go test -overlay <overlay.json mapping " + repo + "/zz_govc_replay_test.go to that file> -vet=off -run TestGovcReplay .",
+	}
+}
+
+var uEsc = regexp.MustCompile(`\\u\{([0-9a-fA-F]+)\}|\\u([0-9a-fA-F]{4})|\\x([0-9a-fA-F]{2})`)
+
+// smtValueToGo converts an SMT model value to a Go literal.
+func smtValueToGo(v string) string {
+	v = strings.TrimSpace(v)
+	if strings.HasPrefix(v, "\"") && strings.HasSuffix(v, "\"") && len(v) >= 2 {
+		s := v[1 : len(v)-1]
+		s = strings.ReplaceAll(s, "\"\"", "\"")
+		var b []byte
+		i := 0
+		for i < len(s) {
+			if m := uEsc.FindStringSubmatchIndex(s[i:]); m != nil && m[0] == 0 {
+				hex := ""
+				for g := 1; g <= 3; g++ {
+					if m[2*g] >= 0 {
+						hex = s[i+m[2*g] : i+m[2*g+1]]
+					}
+				}
+				n, _ := strconv.ParseInt(hex, 16, 32)
+				if n < 256 {
+					b = append(b, byte(n))
+				} else {
+					b = append(b, []byte(string(rune(n)))...)
+				}
+				i += m[1]
+				continue
+			}
+			b = append(b, s[i])
+			i++
+		}
+		return strconv.Quote(string(b))
+	}
+	if strings.HasPrefix(v, "(-") {
+		inner := strings.TrimSpace(strings.TrimSuffix(strings.TrimPrefix(v, "(-"), ")"))
+		return "-" + inner
+	}
+	if v == "true" || v == "false" {
+		return v
+	}
+	if _, err := strconv.ParseInt(v, 10, 64); err == nil {
+		return v
+	}
+	return strconv.Quote(v)
 }
